@@ -481,19 +481,10 @@ class InteractingNetworks(Network):
         :rtype: square numpy array [node_index, node_index]
         :return: link weights submatrix
         """
-        weights = np.zeros((len(node_list), len(node_list)))
-        subgraph = self.graph.subgraph(node_list)
-
-        if self.directed:
-            for e in subgraph.es:
-                weights[e.tuple] = e[attribute_name]
-        #  Symmetrize if subgraph is undirected
-        else:
-            for e in subgraph.es:
-                weights[e.tuple] = e[attribute_name]
-                weights[e.tuple[1], e.tuple[0]] = e[attribute_name]
-
-        return weights
+        #  Index the full attribute matrix: this keeps the given order of the
+        #  nodes (an igraph subgraph would sort them by index)
+        nodes = np.array(node_list, dtype=int)
+        return self.link_attribute(attribute_name)[nodes, :][:, nodes]
 
     def cross_link_attribute(self, attribute_name, node_list1, node_list2):
         """
